@@ -2938,6 +2938,42 @@ PlanT<TArgs>::clear() noexcept	{
 
 template <typename TArgs>
 FFSM2_CONSTEXPR(14)
+typename PlanT<TArgs>::Task&
+PlanT<TArgs>::first() noexcept {
+	FFSM2_ASSERT(_bounds.first < TASK_CAPACITY);
+
+	return _planData.tasks[_bounds.first];
+}
+
+template <typename TArgs>
+FFSM2_CONSTEXPR(14)
+const typename PlanT<TArgs>::Task&
+PlanT<TArgs>::first() const noexcept {
+	FFSM2_ASSERT(_bounds.first < TASK_CAPACITY);
+
+	return _planData.tasks[_bounds.first];
+}
+
+template <typename TArgs>
+FFSM2_CONSTEXPR(14)
+typename PlanT<TArgs>::Task&
+PlanT<TArgs>::last() noexcept {
+	FFSM2_ASSERT(_bounds.last < TASK_CAPACITY);
+
+	return _planData.tasks[_bounds.last];
+}
+
+template <typename TArgs>
+FFSM2_CONSTEXPR(14)
+const typename PlanT<TArgs>::Task&
+PlanT<TArgs>::last() const noexcept {
+	FFSM2_ASSERT(_bounds.last < TASK_CAPACITY);
+
+	return _planData.tasks[_bounds.last];
+}
+
+template <typename TArgs>
+FFSM2_CONSTEXPR(14)
 void
 PlanT<TArgs>::remove(const Long index) noexcept {
 	FFSM2_ASSERT(_planData.planExists);
